@@ -937,7 +937,7 @@ def run(chk):
         "compressing ostream finishes the codec stream before flushing the wrapped stream and sqfs2tar reports success "
         "only after that flush; (K2-codec-table) every detectable compressor has both constructors. Equality of decoded "
         "streams, concatenated members and detection of truncated input are value-level / library behaviour and are "
-        "not decided.")
+        "not decided. K12-probemagic: the probe that decides 'plain tar' accepts every magic string the header reader accepts (constants compared on both sides).")
     chk.assumptions = ["return-code sets and 'finish' constants of zlib, liblzma, libbz2, libzstd as documented"]
     prog = load_program("tar2sqfs")
     codec_rule(chk, prog)
